@@ -250,6 +250,18 @@ pub fn run(path: &str, out: &mut dyn Write) {
                     }
                 }
             }
+            Some("limits") => {
+                if t.len() >= 6 && t[2] == "BIGRAM" {
+                    if let Ok(rows) = t[3].parse::<usize>() {
+                        let side = if t[4] == "L" { 'L' } else { 'R' };
+                        writeln!(out, "{input} IMPL {}", crate::limits::bigram_obs(rows.min(200_000), side, t[5] == "1")).unwrap();
+                    }
+                } else if t.len() >= 5 && t[2] == "MATRIX" {
+                    if let (Ok(a), Ok(b)) = (t[3].parse::<usize>(), t[4].parse::<usize>()) {
+                        writeln!(out, "{input} IMPL {}", crate::limits::matrix_obs(a, b)).unwrap();
+                    }
+                }
+            }
             Some("conn") => {
                 // conn <id> KIND <k> <right> <left> <cost>
                 if t.len() >= 7 && t[2] == "KIND" {
